@@ -49,13 +49,13 @@ PROPS['C04'] = {
 
 PROPS['C05'] = {
     'level': 'other',
-    'units': ['C05/fmindex', 'C05/fm_multi', 'C04/less', 'C04/invert'],
+    'units': ['C05/fmindex', 'C05/fm_multi', 'C05/sampled', 'C04/less', 'C04/invert'],
     'kani': [],
     'oracle': 'C05',
     'decided': ['Occ::new / Occ::get exact for every sampling rate (same regions as C04/occ, verified again inside this unit), less / bwt exact (unit C04/less)', 'FMIndex::{new, occ, less, bwt}: the concrete index implements the trait contracts with spec_occ = number of a in bwt[0..=r] and spec_less = number of smaller symbols, and the counting laws (bounds, monotone, 1-Lipschitz) are PROVED of it', 'FMIndexable::backward_search (the real default method) returns Complete/Partial/Absent exactly as defined by the LF recurrence l\' = less(a)+occ(l-1,a), r\' = less(a)+occ(r,a)-1 over the pattern read right to left; no arithmetic underflow given less(a) >= 1 for pattern symbols'],
-    'decided_extra': ['Interval::occ (rule R33: mapped range collect -> push loop) returns exactly the suffix-array entries of rows lower..upper in row order, no expect() failure when the interval lies inside the array; RawSuffixArray::get; theorem_occ_positions (C05/fm_multi): for the interval of a complete search these entries are exactly the text positions where the pattern occurs, each once', 'the FM-index theorem for texts with ONE OR SEVERAL sentinels (pure theory unit C05/fm_multi): the LF/FM theory is proved over integer-coded texts and transferred to byte texts through the order-isomorphic coding tr (sentinels become distinct codes below all other symbols, a later sentinel being smaller - the order suffix_array() sorts in); for every sentinel-free pattern the recurrence `bs` holds exactly the rows whose suffixes start with the consumed pattern suffix', 'SampledSuffixArray::get resolves row i to pos[i] for every single-sentinel text it represents (unit C04/invert)', 'the FM-index theorem for single-sentinel texts (unit C04/invert, theorem_backward_search, stated over the SAME recurrence `bs` the real loop is proved against): after consuming the last k symbols of a sentinel-free pattern the recurrence interval holds exactly the suffix-array rows of the suffixes starting with those k symbols, and is empty exactly when they do not occur - so Complete/Partial/Absent and the reported intervals mean occurrence sets'],
+    'decided_extra': ['Interval::occ (rule R33: mapped range collect -> push loop) returns exactly the suffix-array entries of rows lower..upper in row order, no expect() failure when the interval lies inside the array; RawSuffixArray::get; theorem_occ_positions (C05/fm_multi): for the interval of a complete search these entries are exactly the text positions where the pattern occurs, each once', 'the FM-index theorem for texts with ONE OR SEVERAL sentinels (pure theory unit C05/fm_multi): the LF/FM theory is proved over integer-coded texts and transferred to byte texts through the order-isomorphic coding tr (sentinels become distinct codes below all other symbols, a later sentinel being smaller - the order suffix_array() sorts in); for every sentinel-free pattern the recurrence `bs` holds exactly the rows whose suffixes start with the consumed pattern suffix', 'SampledSuffixArray::get resolves row i to pos[i] for every text with ONE OR SEVERAL sentinels it represents (unit C05/sampled: LF steps through the order-isomorphic coding, the extra_rows cache at rows whose BWT symbol is a sentinel; the single-sentinel proof is kept in C04/invert)', 'the FM-index theorem for single-sentinel texts (unit C04/invert, theorem_backward_search, stated over the SAME recurrence `bs` the real loop is proved against): after consuming the last k symbols of a sentinel-free pattern the recurrence interval holds exactly the suffix-array rows of the suffixes starting with those k symbols, and is empty exactly when they do not occur - so Complete/Partial/Absent and the reported intervals mean occurrence sets'],
     'undecided': ['that suffix_array() delivers the array sorted in the order of the transformed text (SA-IS, C03) - the theorems take a sorted array as hypothesis',
-                  'SuffixArray::sample (the construction of the sampled array: float capacity, HashMap inserts)', 'sampled suffix arrays over multi-sentinel texts (the extra_rows cache; the proof of get covers single-sentinel texts)', 'owned / Arc-shared component instantiations (the proof instantiates the components at shared references)'],
+                  'SuffixArray::sample (the construction of the sampled array: float capacity, HashMap inserts)', 'owned / Arc-shared component instantiations (the proof instantiates the components at shared references)'],
     'trusted': ['bytecount::count and Alphabet stubs (as in C04)', 'Borrow::borrow on a reference is the identity (rule RBW)'],
     'level_text': 'Verus proves the real backward_search loop against the textbook LF recurrence (result cases, matched length, no underflow) for every implementor satisfying the stated counting laws; the step from the recurrence to occurrence sets is the FM-index theorem, machine-checked here for texts with one or several sentinels (given a suffix array sorted in the order of the transformed text).',
     'level_note': 'Level other: proof of the search loop against the recurrence; occurrence semantics by the machine-checked LF/FM theorem and C04 for the tables; sortedness of the suffix array is a hypothesis (C03).',
@@ -222,12 +222,12 @@ PROPS['C02'] = {
 
 PROPS['C03'] = {
     'level': 'other',
-    'units': ['C03/lcp', 'C04/invert', 'C18/smallints', 'C04/less', 'C04/occ'],
+    'units': ['C03/lcp', 'C04/invert', 'C05/sampled', 'C18/smallints', 'C04/less', 'C04/occ'],
     'kani': [],
     'oracle': 'C03',
     'decided': ['lcp() (Kasai): GIVEN a sorted suffix array of a single-sentinel text of length >= 2, the LCP array holds -1 at both ends and the TRUE longest-common-prefix length of every pair of adjacent suffixes (suffix-order theory: lcp characterisation, antisymmetry, transitivity, sandwich lemma, Kasai lemma - all proved; termination of the scan proved)',
                 'shortest_unique_substrings (the real generic function, any SuffixArray implementor characterised by its view): GIVEN a sorted suffix array and its LCP array, entry p is Some(l) exactly for the shortest substring starting at p that occurs nowhere else in the text (l = 1 + max of the two adjacent LCP values, by the two sandwich lemmas), and None exactly when no substring starting at p is unique; no cast or arithmetic failure for texts of at least two symbols',
-                'SampledSuffixArray::{get, len} (unit C04/invert, components instantiated at references): for EVERY single-sentinel text and sorted suffix array the sampled structure represents (every s-th row sampled, sentinel rows cached), get(i) == Some(pos[i]) for i < n and None otherwise; the LF walk terminates (the text position strictly decreases) - by the machine-checked LF-mapping theorem',
+                'SampledSuffixArray::{get, len} (units C05/sampled - texts with one or several sentinels - and C04/invert - single sentinel; components instantiated at references): for EVERY text and suffix array (sorted in the order of the transformed text) the sampled structure represents (every s-th row sampled, rows whose BWT symbol is a sentinel cached), get(i) == Some(pos[i]) for i < n and None otherwise; the LF walk terminates (the text position strictly decreases) - by the machine-checked LF-mapping theorem',
                 'the LCP-array container SmallInts<i8, isize> behaves as a plain Vec<isize> for every value incl. exactly 127, larger and negative (unit shared with C18)',
                 'bwt/less/Occ (used by the sampled suffix array walk, every Occ sampling rate) are exact (units shared with C04)'],
     'undecided': ['SA-IS construction (Sais::{construct, calc_lms_pos, sort_lms_suffixes, calc_pos}): that the array IS sorted - induced sorting correctness is out of reach of the contracts built here (the lcp proof takes sortedness as a precondition)',
